@@ -49,6 +49,10 @@ FORMS = {
     "comptime-nested-list": "from guppylang.std.array import frozenarray\n\n@guppy\ndef main() -> {T}:\n"
                             "    t: tuple[int, frozenarray[{T}, 2]] = comptime((7, [1, {L}]))\n    return t[1][1]\n",
     "comptime-tuple-later": "@guppy\ndef main() -> {T}:\n    t: tuple[int, {T}] = comptime((1, {L}))\n    return t[1]\n",
+    # inside comprehensions (experimental lists): guard and element expressions are desugared separately
+    "comprehension-guard":   "@guppy\ndef main() -> {T}:\n    ys = [y for y in range(2) if y != {L}]\n    return {L}\n",
+    "comprehension-element": "@guppy\ndef main() -> {T}:\n    ys = [y + {L} for y in range(2)]\n    return {L}\n",
+    "array-comprehension-element": "@guppy\ndef main() -> {T}:\n    ys = array({L} for _ in range(2))\n    return ys[1]\n",
     "argument":        "@guppy\ndef idf(v: {T}) -> {T}:\n    return v\n\n@guppy\ndef main() -> {T}:\n    return idf({L})\n",
     "array-element":   "@guppy\ndef main() -> {T}:\n    xs: array[{T}, 2] = array({L}, 0)\n    return xs[0]\n",
     "arith":           "@guppy\ndef main(z: {T}) -> {T}:\n    v: {T} = {L}\n    return v + z\n",
@@ -59,6 +63,8 @@ FORMS = {
 def eval_case(item):
     form, ty, n = item
     tmpl = FORMS[form]
+    if form in ("comprehension-guard", "comprehension-element", "array-comprehension-element") and ty == "nat":
+        return {"kind": "na"}        # the loop variable of range() is an int; an unannotated element literal too
     if form == "paren-neg":
         if n > 0:
             return {"kind": "na"}
@@ -99,6 +105,8 @@ def eval_case(item):
 
 
 def run(ctx):
+    import guppylang_internals.experimental as ex
+    ex.enable_experimental_features()       # list comprehensions
     vs = values(ctx.tier)
     forms = list(FORMS)
     items = [(f, t, n) for f in forms for t in ("int", "nat") for n in vs]
@@ -122,7 +130,7 @@ def run(ctx):
             samples.append({"form": it[0], "type": it[1], "N": str(it[2]), "outcome": r["kind"]})
     return {
         "evaluations": n, "distinct_nontrivial": acc + rej,
-        "rule": "N in {+-(2^k + d)} U small range U 30-digit values, x 12 syntactic forms x {int, nat}; non-trivial = decided accept/reject "
+        "rule": "N in {+-(2^k + d)} U small range U 30-digit values, x 18 syntactic forms x {int, nat}; non-trivial = decided accept/reject "
                 "with value check",
         "samples": samples, "values": len(vs), "forms": forms,
         "accepted_and_value_checked": acc, "rejected_out_of_range": rej, "open_cases_unary_operator_forms": opn,
@@ -130,6 +138,8 @@ def run(ctx):
 
 
 def replay(ctx, item):
+    import guppylang_internals.experimental as ex
+    ex.enable_experimental_features()
     f, t, n = item["item"]
     r = eval_case((f, t, int(n)))
     return {"violation": r["kind"] in ("bad", "crash"), "result": r}
